@@ -27,6 +27,18 @@ MARKER_NAME = "VALID_PLAN_FOUND_PATTERN"
 MARKER_TEXT = "found legal plan"
 STEP_REGEX_NAME = "PLAN_COMPONENT_REGEX"
 RE_DOTALL, RE_MULTILINE = 16, 8
+# oracle: the texts by which Metric-FF says that the problem has NO solution (the entries of NO_SOLUTION_OPTIONS as shipped).  A plan-less
+# log that contains one of them is 'no-solution', every other plan-less log (cut off / empty / still searching) is 'timeout'.
+NO_SOLUTION_NAMES = ("NO_SOLUTION_OPTIONS", "NO_SOLUTION_FOUND_PATTERN", "NO_SOLUTION_FOUND_PATTERN_2", "NO_SOLUTION_FOUND_PATTERN_3")
+NO_SOLUTION_TEXTS = ("problem proven unsolvable", "goal can be simplified to FALSE", "all increasers applied yet goal not fulfilled")
+# marker families: guard atom -> (texts one of which the searched string contains, module constants that hold such a string)
+FAMILIES = {
+    "found": ((MARKER_TEXT,), (MARKER_NAME,)),                   # the plan marker: decides 'ok'
+    "unsolvable": (NO_SOLUTION_TEXTS, NO_SOLUTION_NAMES),         # decides between 'no-solution' and 'timeout'
+}
+# sizes of the collected step list for which the result is judged (C19.lower [non-empty result]); one more than every constant a length
+# test compares with is added
+STEP_COUNTS = (1, 2)
 
 EXPLANATION = (
     "All clauses are decided on the PUBLIC functions (MetricFFParser.get_solving_status / parse_plan, ENHSPParser.parse_plan_content / "
@@ -63,8 +75,17 @@ EXPLANATION = (
     "itself for findall with one group) with lower() and strip() applied and nothing else; the scanned text is the log the function "
     "was given (no piece of a split text; a slice bound that comes from str.find must be unreachable when find returned -1); what "
     "parse_plan writes (writelines / write in a loop / write(''.join())) is that same list, to a freshly opened file at the output "
-    "path. C19.status: with the marker present every return is ('ok', <computed actions>), with the marker absent every return "
-    "carries 'no-solution' or 'timeout' and an empty list. C19.enhsp: one output line per line of the input file (opened on the path "
+    "path. Tests on the NUMBER of steps (len(xs) <op> c, xs == [], truth value of xs, over the collected list, any copy of it, or the "
+    "list of matches it is built from one-to-one) are evaluated for every size n >= 1 that the constants distinguish: when they decide "
+    "that for some n only empty lists are returned [non-empty result] / that the writing is skipped [non-empty plan is written], the "
+    "guard does not single out the empty plan. "
+    "C19.status: with the marker present every return is ('ok', <computed actions>), with the marker absent every return "
+    "carries 'no-solution' or 'timeout' and an empty list, and the end of the body is not reached without a return (decided under "
+    "complete valuations of the marker atoms). A plan-less log is classified by the no-solution markers (NO_SOLUTION_TEXTS, recognised "
+    "in the same forms as the plan marker: atom 'unsolvable'): both classes can be returned [status:classes]; where the valuation of "
+    "'unsolvable' decides the class it is 'no-solution' for a marker in the log and 'timeout' for none [status:unsolvable=..]; a regular "
+    "expression call whose pattern is the log and whose text is a marker has its arguments the wrong way round [status:search-arguments]. "
+    "One-expression helpers called in the later operands of and / or are applied in place (normal form). C19.enhsp: one output line per line of the input file (opened on the path "
     "parameter in text mode; readlines() or iteration), lower-cased and otherwise untouched, no filter, order kept; parse_plan writes "
     "that list back. C19.cache: no memoising decorator (resolved through import aliases) and no hand-written memo dict at module / "
     "class level on a function that reads external state or receives mutable objects."
@@ -176,6 +197,7 @@ class _Steps:
         self.problems: List[str] = []      # the element / repetition differs from what is demanded  (role step-text / per-line)
         self.shape_problem = False         # the list is not one repetition over the matches at all   (role result)
         self.scans: List[U.Scan] = []
+        self.loops: List[ast.AST] = []     # the for statements / comprehensions that repeat over the matches (lines)
         self.rendered: Optional[str] = None
         self.node: Optional[ast.AST] = None
 
@@ -258,11 +280,12 @@ class _Model:
         return self._views[k]
 
     # -------------------------------------------------------------- the found-plan marker
-    def _is_marker_text(self, e: ast.AST, mod: Optional[str] = None) -> bool:
+    def _is_marker_text(self, e: ast.AST, mod: Optional[str] = None, fam: str = "found") -> bool:
+        texts, names = FAMILIES[fam]
         ss = self._plain.strings(e, mod)
-        return bool(ss) and all((t is not None and MARKER_TEXT in t) or MARKER_NAME in leaf.via for t, leaf in ss)
+        return bool(ss) and all((t is not None and any(x in t for x in texts)) or any(nm in leaf.via for nm in names) for t, leaf in ss)
 
-    def _is_marker_search(self, e: ast.AST) -> bool:
+    def _is_marker_search(self, e: ast.AST, fam: str = "found") -> bool:
         """the value is the match object (or None) of searching the marker anywhere in a text"""
         cs = self._plain.chains(e, stop=lambda n, m_: U.scan_of(self._plain, n, m_) is not None)
         if not cs:
@@ -271,7 +294,7 @@ class _Model:
             if ops:
                 return False
             sc = U.scan_of(self._plain, base.node, base.mod)
-            if sc is None or sc.fn != "search" or sc.pattern is None or sc.extra_positional or not self._is_marker_text(sc.pattern, sc.pattern_mod):
+            if sc is None or sc.fn != "search" or sc.pattern is None or sc.extra_positional or not self._is_marker_text(sc.pattern, sc.pattern_mod, fam):
                 return False
             if base.mod is None and not self._reads_the_log(sc.text):
                 return False
@@ -303,7 +326,8 @@ class _Model:
         return bool(leaves) and all(id(leaf.node) in self._log_leaves for leaf in leaves)
 
     def _marker_atom(self, e: ast.AST) -> Optional[str]:
-        """'found': the marker is in the log;  'nonempty': the log text is not empty (implied by 'found')"""
+        """'found': the plan marker is in the log;  'unsolvable': one of the no-solution markers is in the log;  'nonempty': the log
+        text is not empty (implied by 'found')"""
         if isinstance(e, ast.Name) and isinstance(e.ctx, ast.Load) and self._is_log_text(e):
             return "nonempty"        # truth value of the text
         if isinstance(e, ast.Compare) and len(e.ops) == 1:
@@ -318,13 +342,26 @@ class _Model:
                 return None
             if isinstance(r_, ast.Constant) and r_.value == "" and isinstance(op, (ast.Eq, ast.NotEq)) and self._is_log_text(l):
                 return "!nonempty" if isinstance(op, ast.Eq) else "nonempty"
+        elif not isinstance(e, ast.Call):
+            return None
+        for fam in FAMILIES:
+            a = self._family_atom(e, fam)
+            if a is not None:
+                return a
+        return None
+
+    def _family_atom(self, e: ast.AST, fam: str) -> Optional[str]:
+        """`e` is true exactly when (-> fam) / exactly when not (-> '!' + fam) a marker of the family occurs in the log"""
+        yes, no = fam, "!" + fam
+        if isinstance(e, ast.Compare) and len(e.ops) == 1:
+            l, r_, op = e.left, e.comparators[0], e.ops[0]
             if isinstance(r_, ast.Constant) and r_.value is None and isinstance(op, (ast.Is, ast.IsNot, ast.Eq, ast.NotEq)):
-                if isinstance(l, (ast.Name, ast.Call, ast.NamedExpr)) and self._is_marker_search(l):
-                    return "found" if isinstance(op, (ast.IsNot, ast.NotEq)) else "!found"
+                if isinstance(l, (ast.Name, ast.Call, ast.NamedExpr)) and self._is_marker_search(l, fam):
+                    return yes if isinstance(op, (ast.IsNot, ast.NotEq)) else no
                 return None
-            if isinstance(op, (ast.In, ast.NotIn)) and not isinstance(r_, (ast.List, ast.Tuple, ast.Set, ast.Dict)) and self._is_marker_text(l) \
+            if isinstance(op, (ast.In, ast.NotIn)) and not isinstance(r_, (ast.List, ast.Tuple, ast.Set, ast.Dict)) and self._is_marker_text(l, None, fam) \
                     and self._reads_the_log(r_):
-                return "found" if isinstance(op, ast.In) else "!found"
+                return yes if isinstance(op, ast.In) else no
             c, x, flip = U.const_int(r_), l, False
             if c is None:
                 c, x, flip = U.const_int(l), r_, True
@@ -334,7 +371,7 @@ class _Model:
                 for leaf in leaves:
                     b = leaf.node
                     if not (leaf.mod is None and isinstance(b, ast.Call) and isinstance(b.func, ast.Attribute) and b.func.attr in ("find", "rfind", "count")
-                            and len(b.args) == 1 and not b.keywords and self._is_marker_text(b.args[0]) and self._reads_the_log(b.func.value)):
+                            and len(b.args) == 1 and not b.keywords and self._is_marker_text(b.args[0], None, fam) and self._reads_the_log(b.func.value)):
                         return None
                     t = type(op)
                     if flip:
@@ -342,11 +379,11 @@ class _Model:
                     cnt = b.func.attr == "count"
                     pos = ((ast.Gt, 0), (ast.GtE, 1), (ast.NotEq, 0)) if cnt else ((ast.GtE, 0), (ast.Gt, -1), (ast.NotEq, -1))
                     neg = ((ast.Eq, 0), (ast.Lt, 1), (ast.LtE, 0)) if cnt else ((ast.Lt, 0), (ast.LtE, -1), (ast.Eq, -1))
-                    verdicts.add("found" if (t, c) in pos else "!found" if (t, c) in neg else None)
+                    verdicts.add(yes if (t, c) in pos else no if (t, c) in neg else None)
                 return verdicts.pop() if len(verdicts) == 1 else None
             return None
-        if isinstance(e, ast.Call) and self._is_marker_search(e):
-            return "found"       # truth value of the match object
+        if isinstance(e, ast.Call) and self._is_marker_search(e, fam):
+            return yes       # truth value of the match object
         return None
 
     # -------------------------------------------------------------- interpretation of a list of steps
@@ -369,6 +406,8 @@ class _Model:
             self._source(v, rep.loop, kind, out, quiet=True)
             return out
         loop = rep.loop
+        if loop.node is not None:
+            out.loops.append(loop.node)
         if loop.conds or getattr(loop, "guards", None):
             out.problems.append("a step is emitted only under a condition -- not every match / line yields a step")
         esc = _escapes(loop.node)
@@ -555,6 +594,9 @@ def _ff(repo: Repo) -> _Model:
                 raise _MarkerTestChanged(c, "the marker is searched in a text that is not the planner log the function read")
             if isinstance(c.func, ast.Attribute) and c.func.attr in ("startswith", "endswith") and len(c.args) == 1 and m._is_marker_text(c.args[0]):
                 raise _MarkerTestChanged(c, f"str.{c.func.attr} only finds the marker at one end of the log")
+        sw = _swapped_search(m, m._plain, "found")
+        if sw is not None:
+            raise _MarkerTestChanged(sw, "the planner log is used as the regular expression and the marker as the searched text")
         raise AnalysisError("get_solving_status: found-plan test not recognised (no test of a search for the "
                             f"'{MARKER_TEXT}' marker / {MARKER_NAME} in the log decides the status)")
     return m
@@ -943,6 +985,230 @@ def _check_written(repo: Repo, spec: str, kind: str, rid: str, r: RuleResult) ->
             r.fail(Finding(rid, m.f, role, f"{unparse(call, 60)} does not write exactly the extracted steps in order: {probs[0]}", node=call))
         else:
             r.ok({"written": unparse(call, 60)})
+    _check_written_nonempty(m, v, sinks, kind, rid, r)
+
+
+def _check_written_nonempty(m: _Model, v: U.View, sinks, kind: str, rid: str, r: RuleResult) -> None:
+    """with n >= 1 steps extracted every path through the function writes them: a test on the number of steps may only skip the
+    writing of an EMPTY plan"""
+    good: List[_Steps] = []
+    for _call, lists, _probs in sinks:
+        for k, sq, n in lists:
+            if k == "seq":
+                st = m.steps(v, sq, kind, n)
+                if st.loops and not st.shape_problem:
+                    good.append(st)
+    if not good:
+        return
+    sz = _Sizes(m, v, good)
+    if not sz.seen:
+        return
+    r.site(f"{m.f.qn} [non-empty plan is written]")
+    pm = L.parents_of(m.f)
+    for n in sz.counts():
+        vn = sz.view(n)
+        g = vn.g
+        stops: Set[int] = set()
+        for call, _lists, _probs in sinks:
+            at = vn.node_of(call)
+            if at is not None:
+                stops.add(at)
+            cur = call
+            while cur in pm and not isinstance(cur, ast.FunctionDef):      # `for line in steps: out.write(line)`: n >= 1 turns
+                cur = pm[cur]
+                if isinstance(cur, ast.For) and sz._is_steps(cur.iter):
+                    hn = g.node_of(cur)
+                    if hn is not None:
+                        stops.add(hn)
+        seen: Set[int] = set()
+        todo = [g.entry]
+        while todo:
+            x = todo.pop()
+            if x in seen or x not in vn.seen:
+                continue
+            seen.add(x)
+            todo += [y for y, l in g.succ[x] if vn._allowed(x, l)]
+        # reported when the tests on the number of steps DECIDE that the writing is skipped for this n
+        if stops and not (stops & seen) and g.exit in seen:
+            r.fail(Finding(rid, m.f, "written-plan-nonempty", f"with {n} step{'s' if n > 1 else ''} extracted from the log the function ends without writing "
+                           f"them: the test on the number of steps that guards the writing does not single out the empty plan"))
+            return
+    r.ok({"written_whenever": "at least one step", "sizes_checked": sz.counts()})
+
+
+# --------------------------------------------------------------------------------------------- tests on the number of steps
+_FLIP = {ast.Lt: ast.Gt, ast.Gt: ast.Lt, ast.LtE: ast.GtE, ast.GtE: ast.LtE}
+_CMP = {ast.Eq: lambda a, b: a == b, ast.NotEq: lambda a, b: a != b, ast.Lt: lambda a, b: a < b, ast.LtE: lambda a, b: a <= b,
+        ast.Gt: lambda a, b: a > b, ast.GtE: lambda a, b: a >= b}
+
+
+def _length_test(e: ast.AST):
+    """`len(Z) <op> c` / `c <op> len(Z)` / `Z == []` / `Z != []`  ->  (Z, truth value as a function of the size of Z, c);  else None"""
+    if not (isinstance(e, ast.Compare) and len(e.ops) == 1):
+        return None
+    l, r_, op = e.left, e.comparators[0], type(e.ops[0])
+    is_len = lambda x: isinstance(x, ast.Call) and isinstance(x.func, ast.Name) and x.func.id == "len" and len(x.args) == 1 and not x.keywords
+    if is_len(r_) and not is_len(l):
+        l, r_, op = r_, l, _FLIP.get(op, op)
+    if is_len(l) and op in _CMP:
+        c = U.const_int(r_)
+        if c is None:
+            return None
+        return l.args[0], (lambda n, op=op, c=c: _CMP[op](n, c)), c
+    if op in (ast.Eq, ast.NotEq):
+        if U.is_empty_list(l) and not U.is_empty_list(r_):
+            l, r_ = r_, l
+        if U.is_empty_list(r_) and isinstance(l, ast.Name):
+            return l, (lambda n, op=op: (n == 0) == (op is ast.Eq)), 0
+    return None
+
+
+def _test_positions(f: FuncInfo) -> Set[int]:
+    """ids of the expressions whose TRUTH VALUE is used: tests of if / while / conditional expressions / comprehension filters / assert,
+    operands of not / and / or in such a position, the argument of bool()"""
+    out: Set[int] = set()
+    todo: List[ast.AST] = []
+    for n in ast.walk(f.node):
+        if isinstance(n, (ast.If, ast.While, ast.IfExp, ast.Assert)):
+            todo.append(n.test)
+        elif isinstance(n, ast.comprehension):
+            todo += list(n.ifs)
+        elif isinstance(n, ast.Call) and isinstance(n.func, ast.Name) and n.func.id == "bool" and len(n.args) == 1 and not n.keywords:
+            todo.append(n.args[0])
+        elif isinstance(n, ast.UnaryOp) and isinstance(n.op, ast.Not):
+            todo.append(n.operand)
+    while todo:
+        e = todo.pop()
+        if id(e) in out:
+            continue
+        out.add(id(e))
+        if isinstance(e, ast.BoolOp):
+            todo += list(e.values)
+    return out
+
+
+class _Sizes:
+    """Guard atoms for tests on the NUMBER of collected steps.  The collection tested must be the list of steps itself (a list built by
+    the very repetition over the matches that the judged list is built by, whatever it is called and wherever it was copied to) or the
+    list of matches that repetition runs over (one step per match).  For a given size n every such test has a definite truth value,
+    so `matcher(n)` maps it to the atom 'size' (true for n) or '!size' (false for n) and the valuation {size: True} describes 'exactly
+    n steps were collected'."""
+
+    def __init__(self, m: _Model, v: U.View, interp: List[_Steps]):
+        self.m, self.v = m, v
+        self.loops = {id(x) for st in interp for x in st.loops}
+        self.scans = {id(sc.call) for st in interp for sc in st.scans}
+        self.positions = _test_positions(m.f)
+        self._is: Dict[int, bool] = {}
+        self.constants: Set[int] = set()
+        self.seen = False
+        if self.loops:
+            for n in ast.walk(m.f.node):
+                if self._parse(n) is not None:
+                    self.seen = True
+
+    def _is_steps(self, z: ast.AST) -> bool:
+        k = id(z)
+        if k not in self._is:
+            self._is[k] = False         # (recursion guard)
+            self._is[k] = self._decide(z)
+        return self._is[k]
+
+    def _decide(self, z: ast.AST) -> bool:
+        v = self.v
+        if isinstance(z, ast.Constant):
+            return False
+        try:
+            cs = v.chains(z, stop=lambda n, m_: U.scan_of(v, n, m_) is not None)
+            if cs and self.scans and all(not ops and id(b.node) in self.scans for ops, b in cs):
+                # the list of matches (re.findall(..) / list(re.finditer(..)) bound to a name): one step per match
+                return all(self._materialised(z))
+            ls = v.lists(z)
+        except (KeyError, RecursionError, S.NotInterpretable, AttributeError, TypeError):
+            return False
+        if not any(kind == "seq" for kind, _sq, _node in ls):
+            return False
+        for kind, sq, _node in ls:
+            if kind == "empty":
+                continue        # `[]` handed on in place of the collected list: that this happens for 0 steps only is what [non-empty result] decides
+            if kind != "seq":
+                return False
+            sq = self.m._peel(v, sq, _Steps())
+            if sq.ordered or len(sq.items) != 1 or not isinstance(sq.items[0], S.RepItems) or id(sq.items[0].loop.node) not in self.loops:
+                return False
+        return True
+
+    def _materialised(self, z: ast.AST):
+        """the tested value is a LIST of the matches (an iterator is always true and has no len)"""
+        for leaf in self.v.alts(z):
+            n = leaf.node
+            sc = U.scan_of(self.v, n, leaf.mod)
+            if sc is not None:
+                yield sc.fn == "findall"
+            else:
+                yield isinstance(n, ast.Call) and isinstance(n.func, ast.Name) and n.func.id in ("list", "tuple") and len(n.args) == 1 or isinstance(n, ast.ListComp)
+
+    def _parse(self, e: ast.AST):
+        """(truth value as a function of the number of steps) when e is a test on the size of the steps list"""
+        lt = _length_test(e)
+        if lt is not None:
+            z, fn, c = lt
+            if self._is_steps(z):
+                self.constants.add(c)
+                return fn
+            return None
+        if isinstance(e, ast.Name) and isinstance(e.ctx, ast.Load) and id(e) in self.positions and self._is_steps(e):
+            return lambda n: n > 0
+        return None
+
+    def counts(self) -> List[int]:
+        ns = set(STEP_COUNTS) | {c + 1 for c in self.constants if 0 <= c <= 6} | {c for c in self.constants if 1 <= c <= 6}
+        return sorted(ns)
+
+    def view(self, n: int) -> U.View:
+        base = self.m.G.matcher
+
+        def matcher(e):
+            a = base(e)
+            if a is not None:
+                return a
+            fn = self._parse(e)
+            if fn is None:
+                return None
+            return "size" if fn(n) else "!size"
+        G2 = L.Guards(self.m.f, matcher)
+        return U.View(self.m.repo, self.m.f, G2, dict(self.v.valuation, size=True))
+
+
+def _check_nonempty_result(m: _Model, v: U.View, interp: List[_Steps], r: RuleResult) -> None:
+    """with n >= 1 steps collected every return carries the collected list: an empty list is returned only for an empty plan"""
+    f = m.f
+    r.site(f.qn + " [non-empty result]")
+    good = [st for st in interp if st.loops and not st.shape_problem]
+    if not good:
+        r.ok(n=0)
+        return
+    sz = _Sizes(m, v, good)
+    if not sz.seen:
+        r.ok({"tests_on_the_number_of_steps": 0})
+        return
+    for n in sz.counts():
+        vn = sz.view(n)
+        kinds: List[Tuple[str, ast.AST, ast.AST]] = []
+        for ret, _st, acts in _result_pairs(vn):
+            if acts is None:
+                kinds.append(("opaque", ret, ret))
+                continue
+            kinds += [(k, node, ret) for k, _sq, node in vn.lists(acts)]
+        # reported when the tests on the number of steps DECIDE that only empty lists are returned for this n (a guard that is not
+        # interpreted leaves the return of the collected list reachable and nothing is claimed)
+        if kinds and all(k == "empty" for k, _n, _r in kinds):
+            _k, node, ret = kinds[0]
+            r.fail(Finding("C19.lower", f, "result-nonempty", f"with {n} step{'s' if n > 1 else ''} collected from the log the returned action list is the "
+                           f"empty list {unparse(node, 30)}: the test on the number of steps that guards it does not single out the empty plan",
+                           node=node if hasattr(node, "lineno") else ret))
+            return
+    r.ok({"empty_result_only_for": "0 steps", "sizes_checked": sz.counts()})
 
 
 def rule_lower(repo: Repo) -> RuleResult:
@@ -979,14 +1245,88 @@ def rule_lower(repo: Repo) -> RuleResult:
         r.fail(Finding("C19.lower", f, "result", "with the plan marker present no collected steps are returned (only empty lists)"))
     else:
         r.ok({"returns": "the collected steps" + (" (or a fresh empty list)" if any(k == "empty" for k, _s, _n in lists) else "")})
+    _check_nonempty_result(m, v, interp, r)
     _check_written(repo, FF_WRITE, "ff", "C19.lower", r)
     r.require_sites(3)
     return r
 
 
 # ------------------------------------------------------------------------------------------------------------ C19.status
+def _falls_off(v: U.View) -> bool:
+    """under the valuation the end of the function body can be reached without a return statement (the caller gets None, not a pair)"""
+    g = v.g
+    for n in v.seen:
+        if g.kind[n] in ("return", "raise", "exit", "raise-exit"):
+            continue
+        if any(m == g.exit and v._allowed(n, l) for m, l in g.succ[n]):
+            return True
+    return False
+
+
+def _swapped_search(m: _Model, v: U.View, fam: str) -> Optional[ast.Call]:
+    """a regular-expression call whose PATTERN comes from the log the function read and whose searched TEXT is a marker of the family:
+    the arguments are the wrong way round (the log is compiled as a regular expression)"""
+    for c in L.calls_in(m.f.node):
+        sc = U.scan_of(v, c)
+        if sc is None or sc.pattern is None or sc.text is None or sc.pattern_mod is not None:
+            continue
+        if isinstance(sc.pattern, ast.Constant) or not m._is_marker_text(sc.text, None, fam):
+            continue
+        if v.strings(sc.pattern) and all(t is not None for t, _ in v.strings(sc.pattern)):
+            continue        # a constant pattern
+        try:
+            tr = m.p.trace(sc.pattern)
+        except (KeyError, RecursionError):
+            continue
+        params = {x for x in m.f.params if x != m.f.self_name}
+        if any(x[0].startswith("param:") and x[0][6:] in params for x in tr):
+            return c
+    return None
+
+
+def _opaque_marker_use(m: _Model, fam: str) -> Optional[ast.Call]:
+    """a call that is handed a marker of the family and is not one of the recognised searches (a helper the flattener left as a call):
+    what it answers is not known, so tests that depend on it are not decided by the valuation"""
+    for c in L.calls_in(m.f.node):
+        if U.scan_of(m._plain, c) is not None:
+            continue
+        if isinstance(c.func, ast.Attribute) and c.func.attr in ("find", "rfind", "count", "index", "__contains__", "debug", "info", "warning", "error"):
+            continue
+        if isinstance(c.func, ast.Name) and c.func.id in ("bool", "str", "len", "print"):
+            continue
+        for a in list(c.args) + [k.value for k in c.keywords]:
+            if isinstance(a, (ast.Constant, ast.Name, ast.Attribute, ast.Subscript)):
+                try:
+                    if m._is_marker_text(a, None, fam):
+                        return c
+                except (KeyError, RecursionError):
+                    continue
+    return None
+
+
+def _statuses(v: U.View) -> Tuple[Set[str], bool]:
+    """(status texts of all returns reachable under the view, some return is not a (status, actions) pair / nothing is returned)"""
+    out: Set[str] = set()
+    odd = _falls_off(v)
+    pairs = _result_pairs(v)
+    for _ret, st, _acts in pairs:
+        if st is None:
+            odd = True
+            continue
+        ss = v.strings(st)
+        if not ss:
+            odd = True
+        for t, _ in ss:
+            if t is None:
+                odd = True
+            else:
+                out.add(t)
+    return out, odd or not pairs
+
+
 def rule_status(repo: Repo) -> RuleResult:
-    r = RuleResult("C19.status", "'ok' only under the found-plan marker; every other status carries an empty action list", "a log without a plan yields no actions")
+    r = RuleResult("C19.status", "'ok' only under the found-plan marker; every other status carries an empty action list; a plan-less log is "
+                   "'no-solution' exactly when it contains one of the planner's no-solution markers, 'timeout' otherwise", "a log without a plan yields no actions")
     try:
         m = _ff(repo)
     except _MarkerTestChanged as ex:
@@ -1016,13 +1356,68 @@ def rule_status(repo: Repo) -> RuleResult:
                 bad = bad or not set(statuses) <= {"no-solution", "timeout"} or carries != "empty"
         if not pairs:
             bad = True
+        # the end of the body is reached: None is returned, no (status, actions) pair at all (decided under complete valuations, so that
+        # `if c: return A` followed by `if not c: return B` is not mistaken for a function that can fall off its end)
+        complete = [v] if found or "unsolvable" not in m.G.atoms_seen else [m.view(found=False, unsolvable=True), m.view(found=False, unsolvable=False)]
+        if any(_falls_off(x) for x in complete):
+            seen_pairs.append(("<no return statement: None>", "?"))
+            bad = True
         if not bad:
             r.ok({"marker_found": found, "returns": sorted(set(seen_pairs))})
         else:
             r.fail(Finding("C19.status", f, f"status:found={found}", f"with the plan marker {'present' if found else 'absent'} the function can return "
                            f"{sorted(set(seen_pairs))} (status, action list)"))
+    _classification(m, r)
     r.require_sites(2)
     return r
+
+
+def _classification(m: _Model, r: RuleResult) -> None:
+    """a log without a plan: 'no-solution' when (and only when) the planner said so, 'timeout' otherwise"""
+    f = m.f
+    v0 = m.view(found=False)
+    r.site(f"{f.qn} [plan-less log: both classes]")
+    got, odd = _statuses(v0)
+    missing = sorted({"no-solution", "timeout"} - got)
+    if missing and not odd and got <= {"no-solution", "timeout"}:
+        r.fail(Finding("C19.status", f, "status:classes", f"a log without a plan is never classified {missing}: with the plan marker absent only "
+                       f"{sorted(got)} can be returned, whatever the planner reported"))
+        return
+    if missing:        # reported by [plan marker absent]
+        r.ok(n=0)
+        return
+    r.ok({"statuses_without_plan": sorted(got)})
+    r.site(f"{f.qn} [plan-less log: decided by the no-solution markers]")
+    sw = _swapped_search(m, v0, "unsolvable")
+    if sw is not None:
+        r.fail(Finding("C19.status", f, "status:search-arguments", f"{unparse(sw, 70)}: the planner log is used as the regular expression and the no-solution "
+                       f"marker as the searched text: an unsolvable problem is not recognised and a log that is not a valid pattern raises", node=sw))
+        return
+    if "unsolvable" not in m.G.atoms_seen:
+        r.notes.append(f"{f.qn}: no test of a search for a no-solution marker in the log recognised; how 'no-solution' and 'timeout' are told apart is not checked")
+        r.ok(n=0)
+        return
+    oq = _opaque_marker_use(m, "unsolvable")
+    if oq is not None:
+        r.notes.append(f"{f.qn}: {unparse(oq, 60)} receives a no-solution marker and is not interpreted; the classification is not checked")
+        r.ok(n=0)
+        return
+    table = {}
+    failed = False
+    for present, want in ((True, "no-solution"), (False, "timeout")):
+        v = m.view(found=False, unsolvable=present)
+        got, odd = _statuses(v)
+        table[f"marker_in_log={present}"] = sorted(got)
+        if odd or want in got or not got:
+            if got != {want}:
+                r.notes.append(f"{f.qn}: with marker_in_log={present} the class is not decided by the recognised tests alone ({sorted(got)})")
+            continue        # reported only when the valuation DECIDES the class and it is the wrong one
+        failed = True
+        r.fail(Finding("C19.status", f, f"status:unsolvable={present}", f"a log without a plan that contains "
+                       f"{'a' if present else 'none of the'} no-solution marker{'' if present else 's'} ({NO_SOLUTION_TEXTS[0]!r}, ..) is classified "
+                       f"{sorted(got)}; demanded is {want!r}"), table)
+    if not failed:
+        r.ok(table)
 
 
 # ------------------------------------------------------------------------------------------------------------ C19.enhsp
